@@ -35,7 +35,7 @@ import (
 	"github.com/gauss-project/aurorafs/pkg/rpc"
 	"github.com/gauss-project/aurorafs/pkg/sctx"
 	"github.com/gauss-project/aurorafs/pkg/settlement/chain"
-	"github.com/gauss-project/aurorafs/pkg/statestore/mock"
+	ldbstate "github.com/gauss-project/aurorafs/pkg/statestore/leveldb"
 	"github.com/gauss-project/aurorafs/pkg/storage"
 	"github.com/gauss-project/aurorafs/pkg/subscribe"
 	"github.com/gauss-project/aurorafs/pkg/tracing"
@@ -148,6 +148,7 @@ type nkNode struct {
 	CI     *chunkinfo.ChunkInfo
 	API    api.Service
 	SubPub subscribe.SubPub
+	Rec    *nkRecStorer
 	opts   nkOpts
 	oracle *nkOracle
 	logger logging.Logger
@@ -167,8 +168,15 @@ func nkNewCluster(r *gosim.Run) *nkCluster {
 // AddNode builds a node over fresh durable state.
 func (c *nkCluster) AddNode(o nkOpts) (*nkNode, error) {
 	idx := len(c.Nodes)
-	n := &nkNode{r: c.r, idx: idx, Addr: nkAddr(idx), State: mock.NewStateStore(), opts: o, oracle: c.Oracle,
+	n := &nkNode{r: c.r, idx: idx, Addr: nkAddr(idx), opts: o, oracle: c.Oracle,
 		logger: logging.New(io.Discard, 0)}
+	// the production state store (leveldb), in memory; statestore/mock deadlocks
+	// when an Iterate callback deletes (chunkinfo does that)
+	st, err := ldbstate.NewInMemoryStateStore(n.logger)
+	if err != nil {
+		return nil, err
+	}
+	n.State = st
 	n.Net = c.Net.AddNode(n.Addr, aurora.NewModel().SetMode(aurora.FullNode))
 	if err := n.build(); err != nil {
 		return nil, err
@@ -206,7 +214,8 @@ func (n *nkNode) build() error {
 	if err := n.Net.AddProtocol(n.CI.Protocol()); err != nil {
 		return err
 	}
-	n.API = api.New(n.NS, nil, n.Addr, n.CI, n.Trav, n.Pin, nil, n.logger, tracer, nil, nil, n.oracle, nil, nil, api.Options{})
+	n.Rec = &nkRecStorer{Storer: n.NS}
+	n.API = api.New(n.Rec, nil, n.Addr, n.CI, n.Trav, n.Pin, nil, n.logger, tracer, nil, nil, n.oracle, nil, nil, api.Options{})
 	return nil
 }
 
@@ -326,4 +335,47 @@ func nkSortedKeys[V any](m map[string]V) []string {
 // nkRootCtx returns a context carrying the file root (as retrieval/download do).
 func nkRootCtx(root boson.Address) context.Context {
 	return sctx.SetRootHash(context.Background(), root)
+}
+
+// nkRecStorer sits between the API and the netstore and records which chunk
+// addresses an upload wrote (used to learn a file's chunk set independently of
+// the traversal code).
+type nkRecStorer struct {
+	storage.Storer
+	mu  sync.Mutex
+	on  bool
+	log []string
+}
+
+func (s *nkRecStorer) Put(ctx context.Context, mode storage.ModePut, chs ...boson.Chunk) ([]bool, error) {
+	s.mu.Lock()
+	if s.on {
+		for _, c := range chs {
+			s.log = append(s.log, c.Address().String())
+		}
+	}
+	s.mu.Unlock()
+	return s.Storer.Put(ctx, mode, chs...)
+}
+
+func (s *nkRecStorer) start() {
+	s.mu.Lock()
+	s.on, s.log = true, nil
+	s.mu.Unlock()
+}
+
+func (s *nkRecStorer) stop() []string {
+	s.mu.Lock()
+	defer s.mu.Unlock()
+	s.on = false
+	seen := map[string]bool{}
+	var out []string
+	for _, a := range s.log {
+		if !seen[a] {
+			seen[a] = true
+			out = append(out, a)
+		}
+	}
+	sort.Strings(out)
+	return out
 }
